@@ -43,32 +43,53 @@ _EMPLACE = _compiles(
     "void probe() { phosg::KDTree<phosg::Vector2<int64_t>, int64_t> t; int64_t v = 0; t.emplace(phosg::Vector2<int64_t>(0, 0), v); }\n")
 
 CFG = P(
-    harness=["harness/C13.cc", "harness/C13_seq.cc", "harness/C13_seq2.cc", "harness/C13_misc.cc", "harness/C13_pairs1.cc", "harness/C13_pairs2.cc", "harness/C13_pairs3.cc",
-             "harness/C13_pairs4.cc", "harness/C13_pairs5.cc", "harness/C13_pairs6.cc"],
-    harness_deps=["harness/bfs.hh", "harness/C13_gen.hh", "harness/C13_seq.hh", "harness/C13_pairs.hh"],
+    harness=["harness/C13.cc", "harness/C13_ext.cc", "harness/C13_seq.cc", "harness/C13_seq2.cc", "harness/C13_vals.cc", "harness/C13_misc.cc",
+             "harness/C13_pairs1.cc", "harness/C13_pairs2.cc", "harness/C13_pairs3.cc", "harness/C13_pairs4.cc", "harness/C13_pairs5.cc", "harness/C13_pairs6.cc", "harness/C13_pairs7.cc"],
+    harness_deps=["harness/bfs.hh", "harness/C13_explorer.hh", "harness/C13_gen.hh", "harness/C13_seq.hh", "harness/C13_pairs.hh"],
     srcs=[],
     harness_cxxflags=["-fno-access-control"] + (["-DC13_HAVE_EMPLACE"] if _EMPLACE else []),
-    deadline={"quick": 600, "thorough": 3600},
+    # round 2: ~25 s / ~10 min of work on an idle 16-core box; the machine is usually shared (measured 250-530 s / 5200 s at load ~100)
+    deadline={"quick": 1200, "thorough": 9000},
     # the search does ~10^8 small allocations: short allocation stacks and a small quarantine keep ASan's
     # allocator out of the profile (detection is unaffected: every misuse here is immediate)
     asan_options="malloc_context_size=3:quarantine_size_mb=16:thread_local_quarantine_size_kb=64",
-    rule="a transition (one operation applied to one explored structure) is non-trivial when the structure it starts from holds at least two entries that share a coordinate on some axis (ties / duplicates: the cases where the split rule and deletion matter)",
+    rule="a transition of the E-BFS sections (one operation applied to one explored structure) is non-trivial when the structure it starts from holds at least two entries that share a coordinate on some axis "
+         "(ties / duplicates: the cases where the split rule and deletion matter); a case of the enumerating sections (seq_*, pairs_*, iter, ctx, emplace) is non-trivial when the tree under test holds at least two entries at some point of the case",
     bounds={
-        "quick": "fixpoint: every structure reachable with <= 5 (S1: 3x3 grid, value 0), <= 3 (S2: values {0,1}), <= 3 (S3: 2x2x2 Vector3 cube) live entries by any interleaving of insert, erase and erase_advance; per structure all grid points, all 256 (S3: 729) boxes, all 2^n erase-while-iterating subsets, destruction",
-        "thorough": "fixpoint: every structure reachable with <= 7 (S1), <= 5 (S2), <= 5 (S3) live entries; per structure all grid points, all boxes, all 2^n erase-while-iterating subsets for n <= 6 (n = 7: none / each single / each pair / all), destruction",
+        "quick": "E-BFS fixpoints: every structure reachable with <= 5 (S1: 3x3 grid, value 0), <= 3 (S2: values {0,1}), <= 3 (S3: 2x2x2 Vector3 cube), <= 2 (S4: as S2 with all observers before and after every operation on the same object), "
+                 "<= 4 (S5: S1's grid on {INT64_MIN,-1,INT64_MAX-1}), <= 3 (S6: S3's cube on {INT64_MIN,INT64_MAX-1}) live entries by any interleaving of insert, emplace, erase and erase_advance; per structure all grid points, all 256 (3-D: 729) boxes, "
+                 "all 2^n erase-while-iterating subsets, destruction.  E-ENUM on ONE object without state merging: every sequence of <= 5 (2x2 grid, 1-D) / <= 4 (other worlds) operations over 13 operations (insert|emplace and erase of 4 entries, 5 erase-while-iterating "
+                 "traversals) with the observers at the end (all points; the boxes with lo <= hi per axis plus one inverted interval per axis), and every sequence of 4 (3) operations with all observers and all boxes after every step, for 8 worlds (Vector2<int64_t> grid; one point with 3 values; Vector3; Vector4; Vector2<double>; 1-D; 40-byte string values; "
+                 "instance-counting values).  Boundary coordinates: every ordered pair (a,b) of {2^k-1, 2^k, 2^k+1 (all k), negatives, 0, limits} (float/double: 36 values incl. +-0, denormal, 2^p+-, infinity) as the coordinates of a 4..6-point tree "
+                 "in 2 insertion orders (int32, int64, uint64, 1-D int64: one order per pair, forward / reverse alternating) for Vector2 over int8..int64/uint8..uint64/float/double, 1-D, Vector3 and Vector4 (reduced k sets), all probes and boxes over {a,b}.  Iterator members on every tree of <= 4 inserts (+1 erase) from 5 entries; "
+                 "7 calling contexts x every tree of <= 3 inserts; two live trees; 6 insertion forms (emplace argument shapes) in every sequence of <= 3 calls",
+        "thorough": "E-BFS fixpoints with <= 7 (S1), <= 5 (S2), <= 5 (S3), <= 3 (S4), <= 5 (S5), <= 4 (S6) live entries; all 2^n erase-while-iterating subsets for n <= 6 (n = 7: none / each single / each pair / all).  Sequences: <= 6 (2x2 grid, 1-D) / <= 5 operations with "
+                    "observers at the end, 5 (4) with observers after every step.  Boundary pairs in 4 insertion orders (8-bit: every value of the type, 2 orders; Vector3<int64_t>, Vector4: 2 orders), all boxes in every sweep, Vector3<int64_t> over every k, Vector4 over 13 exponents.  Iterator members on trees of <= 5 inserts, contexts on trees of <= 4 inserts, insertion forms in sequences of <= 4 calls",
     },
-    explanation="E-BFS: states are operation histories replayed on a fresh real KDTree, identified by a white-box pre-order serialisation of the real nodes; the search closes over every structure reachable under the live-entry bound; the reference is a plain multiset with linear scans",
+    explanation="E-BFS: states are operation histories replayed on a fresh real KDTree, identified by a white-box pre-order serialisation of the real nodes; the search closes over every structure reachable under the live-entry bound; the reference is a plain multiset with linear scans.  "
+                "E-ENUM (round 2): every operation sequence of bounded length on one object (no merging, so state that is not part of the node structure - caches, recycled nodes, memoised answers - is exercised), every ordered pair of boundary coordinates for every coordinate type and dimension, "
+                "every iterator member at every position, every calling context; the reference is a plain list with linear scans written against the named members x, y, z, w",
     assumptions=[
-        "points come from a 3x3 integer grid (Vector2<int64_t>) or the 2x2x2 cube (Vector3<int64_t>), values from {0} or {0,1}; larger grids, other coordinate types and the statement's random 300-operation histories are not covered",
-        "the closure is bounded by the number of live entries (quick 5/3/3, thorough 7/5/5), not by history length",
+        "E-BFS scopes: points come from a 3x3 integer grid (Vector2<int64_t>) or the 2x2x2 cube (Vector3<int64_t>), plain or mapped monotonically onto {INT64_MIN, -1, INT64_MAX-1}; values from {0} or {0,1}; the statement's random 300-operation histories on grids of side up to 12 are replaced by the exhaustive bounds above",
+        "the closures are bounded by the number of live entries, not by history length; the sequence sections are bounded by history length (<= 6) on 4-entry alphabets",
         "the ordering invariant named by the fields (`before` strictly smaller on `dim`, `after_or_equal` the rest) is treated as part of the contract and checked white-box; dim == depth % dimensions and parent links are checked in every state, which is what makes the canonical form lossless",
         "a structure that violates the ordering invariant is an error state: the violation is reported on the transition that produced it, the full oracle is evaluated in it, and it is not expanded further (prunes nothing on a tree without such violations)",
-        "don't care: operator++ / erase_advance on an end iterator, iterators kept across an unrelated erase, depth(); at() on a point with several entries may return the value of any of them",
-        "KDTree::emplace is ill-formed on the pinned tree (cannot be instantiated): it is executed only when the tree under test makes it compile",
-        "a crash of ~KDTree on an empty tree is established once per process in a forked child and then reported for every later empty destruction without re-executing it",
+        "don't care (never executed, they are use-after-free by construction): operator++ / erase_advance on an end iterator, an iterator used after erase(pt, v) or after erase_advance through another iterator.  Executed but not compared: depth(); iterating on from the iterator returned by insert/emplace.  "
+        "at() on a point with several entries may return the value of any of them; no order of iteration or of within() results is demanded (multisets)",
+        "iterator members: == means 'same position' (both at the end, or designating the same entry of one traversal), a copy advanced on its own repeats the rest of the traversal, it++ returns the old position - the forward-iterator meaning the class declares through iterator_category",
+        "coordinates: no NaN (not ordered); -0.0 and 0.0 are the same coordinate; +-infinity are ordinary coordinates.  The 1-D world uses a minimal coordinate type of the harness (at, dimensions, ==) because phosg has no Vector1",
+        "copy/move construction and assignment of KDTree are deleted on this tree, so there are no assignment histories; reuse of one object after it was emptied (by erase or by erase_advance) is covered by the sequence sections",
+        "private helpers that no public member reaches (count_subtree, collect_into, the 4-argument Node constructor, find_subtree_min_max with find_max = true since delete_node always promotes a minimum) are outside the statement and not called",
+        "calling contexts cover what a container without I/O can depend on (active exception, unwinding, other thread, second live tree, ambient errno owned by the engine); signals, short reads/writes and streams do not apply",
+        "two threads never use a tree at the same time (hand-over through promise/future); concurrent use is outside the statement",
+        "KDTree::emplace was ill-formed on the tree this suite started from: it is executed only when the tree under test makes it compile (feature probe at configuration time)",
+        "a crash of ~KDTree on an empty tree is established once per process (and per instantiation) in a forked child and then reported for every later empty destruction without re-executing it",
     ],
-    engine="E-BFS",
-    technique="explicit-state breadth-first search over real KDTree objects (histories replayed on fresh objects, white-box canonical form, fixpoint under a live-entry bound) with a brute-force multiset oracle, structural invariant and destruction in every state under ASan/LSan",
-    level_text="Every KD-tree structure reachable with at most N live entries from the 3x3 grid (and the 2x2x2 cube) by any interleaving of insert, erase and erase-while-iterating is built on the real code and, in each one, size, iteration, at/exists for every grid point, within/exists for every box, erase results, the ordering invariant and destruction are compared with a linear-scan multiset; inside that bound the verdict is exhaustive.",
-    level_note="Trusted: the harness's multiset model and box membership test; the canonical form omits dim/parent, which is sound because both are verified in every state. Bounded by live entries (7/5/5 thorough), small grids, integer coordinates.",
+    engine="E-BFS + E-ENUM",
+    technique="explicit-state breadth-first search over real KDTree objects (histories replayed on fresh objects, white-box canonical form, fixpoint under a live-entry bound) plus exhaustive enumeration of operation sequences on one object, boundary-coordinate pairs for every "
+              "coordinate type, iterator members, calling contexts and emplace forms; brute-force multiset oracle, structural invariant and destruction in every state under ASan/LSan",
+    level_text="Every KD-tree structure reachable with at most N live entries from the 3x3 grid (and the 2x2x2 cube), also with the grid at the int64_t limits, by any interleaving of insert, emplace, erase and erase-while-iterating is built on the real code and, in each one, size, iteration, "
+               "at/exists for every grid point, within/exists for every box, erase results, the ordering invariant and destruction are compared with a linear-scan multiset; in addition every operation sequence of bounded length on a single object, every ordered pair of boundary coordinates "
+               "of every integer and floating coordinate type in 1 to 4 dimensions, every iterator member and seven calling contexts are enumerated; inside those bounds the verdict is exhaustive.",
+    level_note="Trusted: the harness's multiset/list model and box membership test; the canonical form omits dim/parent, which is sound because both are verified in every state. Bounded by live entries (7/5/5 thorough), history length (6), small grids and two coordinate values per boundary case.",
 )
